@@ -65,7 +65,8 @@ type Dataset struct {
 	markedForDeletion    bool
 	PublicNamespaces     []string `json:"publicNamespaces"`
 	fullSyncID           string
-	fullSyncLeased       bool // the running sync was started with a lease (HTTP); job-driven syncs are never leased
+	fullSyncLeased       bool   // the running sync was started with a lease (HTTP); job-driven syncs are never leased
+	fullSyncGen          uint64 // incremented by every start; identifies a job-driven sync
 	ProxyConfig          *ProxyDatasetConfig   `json:"proxyConfig"`
 	VirtualDatasetConfig *VirtualDatasetConfig `json:"virtualDatasetConfig"`
 }
@@ -94,8 +95,16 @@ func (ds *Dataset) StartFullSync() error {
 	ds.fullSyncLeased = false
 	ds.fullSyncStarted = true
 	ds.fullSyncSeen = make(map[uint64]int)
+	ds.fullSyncGen++
 
 	return nil
+}
+
+// StartFullSyncGen starts a job-driven full sync and returns its generation, to
+// be handed to CompleteFullSyncGen.
+func (ds *Dataset) StartFullSyncGen() (uint64, error) {
+	err := ds.StartFullSync()
+	return ds.fullSyncGen, err
 }
 
 func (ds *Dataset) StartFullSyncWithLease(fullSyncID string) error {
@@ -162,6 +171,15 @@ func (ds *Dataset) ReleaseFullSyncLease(fullSyncID string) error {
 		ds.fullSyncLease.cancel()
 	}
 	return nil
+}
+
+// CompleteFullSyncGen completes the job-driven full sync started by
+// StartFullSyncGen, unless another sync has superseded it in the meantime.
+func (ds *Dataset) CompleteFullSyncGen(ctx context.Context, gen uint64) error {
+	if !ds.fullSyncStarted || ds.fullSyncGen != gen {
+		return errors.New("fullsync was superseded by another fullsync, nothing completed")
+	}
+	return ds.CompleteFullSync(ctx)
 }
 
 // CompleteFullSync Full sync completed - mark unseen entities as deleted
